@@ -89,6 +89,19 @@ impl<T: Eq + PartialOrd + Send + Sync, A: Clone> Graph<T, A> {
         if self.predecessors_map@.contains_key(i) { self.predecessors_map@[i]@ } else { Set::empty() }
     }
 
+    // ---- name-keyed adjacency maps and edge store (what get_successors_map / get_predecessors_map / per-node queries read) ----
+    pub open spec fn succ_names(&self, a: T) -> Set<T> {
+        if self.successors@.contains_key(a) { self.successors@[a]@ } else { Set::empty() }
+    }
+
+    pub open spec fn pred_names(&self, a: T) -> Set<T> {
+        if self.predecessors@.contains_key(a) { self.predecessors@[a]@ } else { Set::empty() }
+    }
+
+    pub open spec fn name_list(&self, k: (T, T)) -> Seq<Arc<Edge<T, A>>> {
+        if self.edges@.contains_key(k) { self.edges@[k]@ } else { Seq::empty() }
+    }
+
     // ---- position-keyed edge store ----
     pub open spec fn has_pair(&self, u: usize, v: usize) -> bool {
         self.edges_map@.contains_key(u) && self.edges_map@[u]@.contains_key(v)
@@ -327,6 +340,26 @@ pub open spec fn ae_index<T: Eq + PartialOrd + Send + Sync, A: Clone>(pre: Graph
         })
 }
 
+// the name-keyed maps gain exactly the new adjacency and the new stored edge (under the key (u, v) of its stored form)
+pub open spec fn ae_names<T: Eq + PartialOrd + Send + Sync, A: Clone>(pre: Graph<T, A>, e: Edge<T, A>, post: Graph<T, A>, r: Result<(), Error>) -> bool {
+    &&& pre.stores(e) ==> ({
+            let se = pre.stored_form(e);
+            let k = (se.u, se.v);
+            &&& forall|a: T, x: T| #[trigger] post.succ_names(a).contains(x) ==
+                    (pre.succ_names(a).contains(x) || (a == e.u && x == e.v) || (!pre.specs.directed && a == e.v && x == e.u))
+            &&& forall|a: T, x: T| #[trigger] post.pred_names(a).contains(x) ==
+                    (pre.pred_names(a).contains(x) || (pre.specs.directed && a == e.v && x == e.u))
+            &&& forall|k2: (T, T)| k2 != k ==> #[trigger] post.name_list(k2) == pre.name_list(k2)
+            &&& post.edges@.contains_key(k)
+            &&& pre.specs.multi_edges ==> ({
+                    &&& post.name_list(k).len() == pre.name_list(k).len() + 1
+                    &&& forall|j: int| 0 <= j < pre.name_list(k).len() ==> post.name_list(k)[j] == pre.name_list(k)[j]
+                    &&& *post.name_list(k)[pre.name_list(k).len() as int] == se
+                })
+            &&& !pre.specs.multi_edges ==> post.name_list(k).len() == 1 && *post.name_list(k)[0] == se
+        })
+}
+
 // everything add_edge guarantees about one call (the step relation the batch functions fold)
 pub open spec fn add_edge_rel<T: Eq + PartialOrd + Send + Sync, A: Clone>(pre: Graph<T, A>, e: Edge<T, A>, post: Graph<T, A>, r: Result<(), Error>) -> bool {
     &&& ae_outcome(pre, e, post, r)
@@ -338,6 +371,7 @@ pub open spec fn add_edge_rel<T: Eq + PartialOrd + Send + Sync, A: Clone>(pre: G
     &&& ae_store(pre, e, post, r)
     &&& ae_traversal(pre, e, post, r)
     &&& ae_index(pre, e, post, r)
+    &&& ae_names(pre, e, post, r)
 }
 
 // ---- batch adds: the state is add_edge folded over a prefix of the batch ----
